@@ -52,21 +52,36 @@ def r12_1(ck: Check) -> None:
 
 
 def exact_guard(ck: Check, rule: str, summ, spec: Spec, reject: str, what: str, context=()) -> None:  # type: ignore
-    """the guard exists AND rejects nothing more than `reject` (equality is accepted)."""
+    """every disjunct of `reject` is rejected, AND no related guard rejects more than `reject` (equality / boundary values are accepted)."""
+    from ..engine.match import disj_atoms
+    from ..engine.terms import same_operands
     rj = spec.term(reject)
     ctx = [spec.term(c) for c in context]
-    res = find_guard(ck.repo, summ, rj, spec.loops, ctx)
     construct = "%s: rejects exactly when %s" % (short(summ.fi.qualname), show(rj)[:140])
-    if not res.ok:
-        ck.violated(rule, construct, "%s — guard missing: %s" % (what, res.why), summ.fi.loc)
-        return
-    rest = [c.term for c in residual(res.event, ctx)]  # type: ignore
-    code = mk_and(rest)
-    if implies(code, rj):
-        ck.ok(rule, construct, what, res.event.loc)  # type: ignore
-    else:
+    parts = list(rj[1]) if rj[0] == "or" else [rj]
+    hits = []
+    for d in parts:
+        res = find_guard(ck.repo, summ, d, spec.loops, ctx)
+        if not res.ok:
+            ck.violated(rule, construct, "%s — guard missing for %s: %s" % (what, show(d)[:80], res.why), summ.fi.loc)
+            return
+        hits.append(res.event)
+    atoms = disj_atoms(rj)
+    too_strict = []
+    for ev in summ.raises():
+        rest = [c.term for c in residual(ev, ctx)]
+        if not rest or list(l[1] for l in ev.loops) != list(spec.loops):
+            continue
+        code = mk_and(rest)
+        rel = any(same_operands(a, b) for a in atoms for b in disj_atoms(code))
+        if rel and not implies(code, rj):
+            too_strict.append((ev, code))
+    if too_strict:
+        ev, code = too_strict[0]
         ck.violated(rule, construct, "%s — the validator also rejects cases the property requires it to accept: it rejects when %s" % (
-            what, show(code)[:140]), res.event.loc)  # type: ignore
+            what, show(code)[:140]), ev.loc)
+    else:
+        ck.ok(rule, construct, what, hits[0].loc)
 
 
 def r12_2(ck: Check) -> None:
@@ -170,6 +185,8 @@ def check(ck: Check) -> None:
     ck.run("R12.2", "exact reward; validator accepts equality", lambda: r12_2(ck))
     from .c05 import r05_8
     ck.run("R05.8", "producer/validator agreement", lambda: r05_8(ck))
+    from .c02 import r02_2
+    ck.run("R02.2", "fees = sum over ALL included transactions of (inputs - outputs)", lambda: r02_2(ck))
     ck.run("R12.4", "found-block handler: adopt, then publish", lambda: r12_4(ck))
     from .c15 import r15_3
     ck.run("R15.3", "a fresh key is persisted before use (miner call sites)", lambda: r15_3(ck, only_prefix="skepticoin.mining."))
